@@ -56,8 +56,9 @@ Need2(Ly, ns, U) == LET o == Off2(Ly, ns, U) IN o[Len(Ly)] + Ly[1].w + Ly[Len(Ly
 Fits(Ly, O, U) == (O.hasMin = 1 /\ O.hasMax = 1) => Need2(Ly, O.ns, U) <= 2 * (O.maxPos - O.minPos)
 \* every item entirely inside the bounds, to within 0.5 rounding (+ 1e-3 for the soft walls)
 Inside(Ly, O, U) == \A i \in 1..Len(Ly) :
-    /\ O.hasMin = 1 => 1000 * (2 * Ly[i].p - Ly[i].w) >= 1000 * (2 * O.minPos - U) - 2 * U
-    /\ O.hasMax = 1 => 1000 * (2 * Ly[i].p + Ly[i].w) <= 1000 * (2 * O.maxPos + U) + 2 * U
+    \* (the 1e-3 allowance for the soft walls is (2*U) \div 1000 units: written without a x1000 factor to stay inside 32 bits)
+    /\ O.hasMin = 1 => 2 * Ly[i].p - Ly[i].w >= 2 * O.minPos - U - (2 * U) \div 1000
+    /\ O.hasMax = 1 => 2 * Ly[i].p + Ly[i].w <= 2 * O.maxPos + U + (2 * U) \div 1000
 
 \* ------------------------------------------------------------ C02: pool adjacent violators
 \* z-coordinates (doubled): y2[i] = 2*t[i] - Off2[i]; blocks are <<sum, count>>
@@ -100,7 +101,7 @@ XStar2(Ly, O, U) == LET o == Off2(Ly, O.ns, U) z == ZStar(Ly, O, U)
 
 \* every reported position within 0.5 (+1e-3) of the optimum:  |2p - x2| <= U + 2e-3*U
 WithinHalf(Ly, O, U) == LET x == TLCEval(XStar2(Ly, O, U)) IN
-    \A i \in 1..Len(Ly) : 1000 * CAbs(2 * Ly[i].p * x[i][2] - x[i][1]) <= (1000 * U + 2 * U) * x[i][2]
+    \A i \in 1..Len(Ly) : CAbs(2 * Ly[i].p * x[i][2] - x[i][1]) <= U * x[i][2] + (2 * U * x[i][2]) \div 1000
 
 \* ------------------------------------------------------------ KKT certificate of ZStar itself
 \* minimise sum (z[i]-y[i])^2  s.t.  z[i] <= z[i+1],  lo <= z[1],  z[n] <= hi.
